@@ -86,6 +86,16 @@ def wfB (t : Tmpl) : Bool :=
   (atomsOf t.segs).all (fun p => match p with | .lit l => wellEscapedB (litText l) | _ => true) &&
   wellEscapedB t.verb
 
+/-- executable form of `Tmpl.ShapeOk` (ProofsResolve.lean): what the parser guarantees about its output;
+    monitored on every AST the real parser returns, because `C03_compiled_matcher` assumes it -/
+def shapeB (t : Tmpl) : Bool :=
+  t.segs.all fun s => match s with
+    | .plain (.lit l) => !l.isEmpty
+    | .plain _ => true
+    | .var x ps => !x.isEmpty && x != eof && !ps.isEmpty && ps.all fun p => match p with
+      | .lit l => !l.isEmpty
+      | _ => true
+
 /-- tspec → (intended AST if given) -/
 def parseTSpec (s : String) : Option (Option Tmpl) :=
   match s.toList with
@@ -122,7 +132,8 @@ def handleMatch (tspec comps verb : String) (out : List String) : String :=
         let impl := s!"{opsS} {poolS} {verbS} {fieldsS} {patS} {resS}"
         -- spec judgement: for a well-formed template the match result is fixed by `Matches`
         -- (C03_matcher: matchTmpl decides it), whatever the compiled form looks like
-        if intended.isSome ∧ intended ≠ some t then s!"DIFF model=parse:{showAst t}"
+        if ¬ shapeB t then s!"DIFF model=shape (the parser returned an AST outside the proved domain: {showAst t})"
+        else if intended.isSome ∧ intended ≠ some t then s!"DIFF model=parse:{showAst t}"
         else if wfB t ∧ absRes ≠ resS then s!"VIOL match impl={resS} spec={absRes}"
         else if absRes ≠ modelRes then s!"DIFF model-internal compiled={modelRes} ast={absRes}"
         else if impl ≠ model then s!"DIFF model={model}"
@@ -311,7 +322,9 @@ def handleRoute (table method kind x : String) (out : List String) : String :=
           match (if allWf then specJudge entries meth reqPath res else none) with
           | some why => s!"VIOL route {why}"
           | none =>
-            if ¬ parseOk then "DIFF model=parse (a grammar-generated template was parsed to a different AST)"
+            if ¬ (parsed.all fun p => match p with | some t => shapeB t | none => true) then
+              "DIFF model=shape (the parser returned an AST outside the proved domain)"
+            else if ¬ parseOk then "DIFF model=parse (a grammar-generated template was parsed to a different AST)"
             else if mC ≠ mA then s!"DIFF model-internal compiled={mC} ast={mA}"
             else if res ≠ mC then s!"DIFF model={mC}"
             else
